@@ -15,7 +15,12 @@ out=["","## 9. Independently seeded changes and which checks catch them","",
 "battery of their property (they must keep firing the recorded rule).","",
 "| seed | property | change (needs … to manifest) | caught by |","|---|---|---|---|"]
 for m in rows:
-    out.append(f"| {m['id']} | {m['property']} | {m['what']} *Needs:* {m['needs_to_manifest']} | {'; '.join(m['caught_by'])} |")
+    extra = ''
+    if m.get('rebased'):
+        extra += ' *Rebased:* ' + m['rebased']
+    if m.get('superseded'):
+        extra += ' *Superseded:* ' + m['superseded']
+    out.append(f"| {m['id']} | {m['property']} | {m['what']} *Needs:* {m['needs_to_manifest']} | {'; '.join(m['caught_by'])}{extra} |")
 out.append("")
 out.append(open(V+'/tools/design_tally.md').read())
 s=open(V+'/DESIGN.md').read()
